@@ -416,7 +416,10 @@ def _run_scenario(inst, res):
                     pass
 
             # --- auxiliary (concrete): applying an offered set yields exactly those connection edges and no choice node
-            for edges in list(K.iter_conn_edges(inst_g))[:6]:
+            for edges0 in list(K.iter_conn_edges(inst_g))[:6]:
+              edges0 = list(edges0)
+              # the same set handed over in another order (a set has no order): as offered, reversed, interleaved
+              for edges in (edges0, edges0[::-1], edges0[::2]+edges0[1::2]):
                 g2 = inst_g.get_for_apply_connection_choice(K, edges)
                 got_edges = sorted((str(u), str(v)) for u, v, k, d in g2.graph.edges(keys=True, data=True)
                                    if d.get('type') == EdgeType.CONNECTS and u in sb and v in tb)
@@ -424,7 +427,9 @@ def _run_scenario(inst, res):
                 if len(gp.connection_choice_nodes) == 1 and not g2.feasible:
                     _viol(res, 'scenario', dict(kind='applied_set_infeasible', **sig), cfg, dict(i_comb=i_comb, edges=want_edges), dict(feasible=False), 'applying an offered set gives a feasible instance')
                 if got_edges != want_edges or K in g2.graph.nodes:
-                    _viol(res, 'scenario', dict(kind='apply_edges', **sig), cfg, dict(i_comb=i_comb, edges=want_edges), dict(edges=got_edges, choice_left=K in g2.graph.nodes), 'exactly those edges')
+                    _viol(res, 'scenario', dict(kind='apply_edges', **sig), cfg, dict(i_comb=i_comb, edges=[(str(a), str(b)) for a, b in edges]),
+                          dict(edges=got_edges, choice_left=K in g2.graph.nodes), 'exactly those edges')
+                    break
             # a connector that cannot stay unconnected while no counterpart connector exists at all: the instance with the
             # open connection choice must already report infeasible
             for side, other in ((s_b, t_b), (t_b, s_b)):
